@@ -487,3 +487,11 @@ func RetOperand(ret *ssa.Return, i int) ssa.Value {
 	}
 	return v
 }
+
+// AsInstr returns v as an instruction (nil for parameters, constants, globals...).
+func AsInstr(v ssa.Value) ssa.Instruction {
+	if i, ok := v.(ssa.Instruction); ok {
+		return i
+	}
+	return nil
+}
